@@ -299,7 +299,8 @@ def cells(prop, tier):
     shapes = [
         (1, 1, (), ()), (2, 2, (), ()), (1, 2, (), ()), (0, 0, ('x',), ('x',)), (0, 0, ('x',), ('y',)),
         (0, 0, ('x', 'y'), ('y', 'x')), (1, 1, ('x',), ('x',)), (1, 1, ('x', 'y'), ('y', 'x')), (0, 0, ('x', 'y'), ('x',)),
-        (2, 2, ('z',), ('z',)),
+        (2, 2, ('z',), ('z',)), (3, 3, (), ()), (3, 3, ('x', 'y', 'z'), ('z', 'y', 'x')), (2, 2, ('x', 'y', 'z'), ('y', 'z', 'x')),
+        (0, 0, ('x', 'y', 'z'), ('z', 'x', 'y')), (3, 2, ('x',), ('x',)), (2, 2, ('x', 'y'), ('x', 'z')),
     ]
     for (na, nb, kan, kbn) in shapes:
         out.append(Cell(
@@ -329,8 +330,8 @@ def cells(prop, tier):
     out.append(Cell(name='twin_share', sig='pa: List[int], pb: List[int]', pre=['len(pa) == 2 and len(pb) == 2'],
                     body='H.twin_share(pa, pb)', expect='refute', timeout=90, family='ints'))
     if tier == 'thorough':
-        for (na, nb, kan, kbn) in [(3, 3, (), ()), (3, 3, ('x', 'y', 'z'), ('z', 'y', 'x')), (2, 2, ('x', 'y', 'z'), ('y', 'z', 'x')),
-                                   (0, 0, ('x', 'y', 'z'), ('z', 'x', 'y')), (3, 2, ('x',), ('x',)), (2, 2, ('x', 'y'), ('x', 'z'))]:
+        for (na, nb, kan, kbn) in [(4, 4, (), ()), (4, 4, ('x', 'y', 'z'), ('z', 'y', 'x')), (3, 3, ('x', 'y', 'z'), ('y', 'z', 'x')),
+                                   (4, 3, ('x', 'y'), ('y', 'x')), (1, 1, ('x', 'y', 'z'), ('x', 'y')), (0, 4, (), ('x',))]:
             out.append(Cell(
                 name='ints_p%d%d_%s_%s' % (na, nb, ''.join(kan) or 'none', ''.join(kbn) or 'none'),
                 sig='pa: List[int], pb: List[int], ka: List[int], kb: List[int]',
@@ -348,9 +349,9 @@ META = {'C14': {
                    'class (args equal in order, kwargs equal as name/value sets), returned values tagged with the producing invocation, '
                    'eviction sequences on the supplied mapping.',
     'functions': [('aiuti/asyncio.py', 'threadsafe_async_cache')],
-    'bounds': 'quick: 4 calls per scenario (sig A, sig B, A with keyword order reversed, B), 0..2 positional and 0..2 keyword '
+    'bounds': 'quick: 4 calls per scenario (sig A, sig B, A with keyword order reversed, B), 0..3 positional and 0..3 keyword '
               'arguments over names x,y,z with all integer values; 9-value mixed-type domain for one varying argument; eviction: two '
-              'entries, two eviction steps from {none, entry 0, entry 1, all}; thorough: up to 3 positional and 3 keyword arguments',
+              'entries, two eviction steps from {none, entry 0, entry 1, all}; positional strings equal to keyword names; thorough: up to 4 positional and 3 keyword arguments',
     'outside': 'unhashable arguments; concurrency (C01/C05/C06); more than 3 arguments; caches that do not retain entries',
     'assumptions': ['the supplied mapping compares keys with == (dict semantics); for the default dict, hashing of the real key objects '
                     'is executed natively after the engine realises them'],
